@@ -285,6 +285,49 @@ theorem to_from_roundtrip (names : List String) (rows : List (List α)) (size : 
   rw [(iterator_spec _).1, hrows]
   simp [Table.rows]
 
+/-! ## The kind of object a size is (sixth pass) -/
+
+/-- **The size guards recognise every kind of integer object.**  Whatever *type* test the guard of `from_arrow`
+(`if size:`) and of `to_arrow` (`size is not None and size >= 0`) carries — *generated*: the kinds of argument
+object that pass it, every kind when there is none — a built-in `int`, a `bool`, an `int` subclass and a numpy
+integer scalar all pass.  (`isinstance(size, int)` does not satisfy this: a `numpy.int64` limit would silently
+become "no limit".) -/
+theorem size_kind_spec :
+    ∀ kind ∈ demandedSizeKinds, kind ∈ Gen.ArrowExpr.sizeKinds ∧ kind ∈ Gen.ArrowExpr.toArrowSizeKinds := by
+  decide
+
+/-- Non-vacuity, and what the type test costs: a numpy integer limit of 2 behind a guard that only lets
+`int`, `bool` and `int` subclasses through is not a limit at all. -/
+example : sizeSeen ["int", "bool", "int-subclass"] "numpy-integer" (some 2) = (none : Option Nat) ∧
+    sizeSeen Gen.ArrowExpr.sizeKinds "numpy-integer" (some 2) = some 2 ∧
+    fromArrowInputKind (Input.list [[[1, 2, 3]], [[4, 5]]]) "numpy-integer" (some 2) = some [1, 2] := by decide
+
+/-- …so a size of any of these kinds is seen by the code behind the guard as the size it is. -/
+theorem size_seen_spec {β : Type} (kind : String) (hk : kind ∈ demandedSizeKinds) (size : Option β) :
+    sizeSeen Gen.ArrowExpr.sizeKinds kind size = size ∧ sizeSeen Gen.ArrowExpr.toArrowSizeKinds kind size = size := by
+  obtain ⟨h1, h2⟩ := size_kind_spec kind hk
+  exact ⟨if_pos h1, if_pos h2⟩
+
+/-- **Cut to the requested size, whatever kind of integer object the size is** (`from_arrow`): for every shape of
+argument, every list of tables and chunk layout, every kind of the property's range and every size none or positive. -/
+theorem from_arrow_any_size_object (x : Input α) (kind : String) (hk : kind ∈ demandedSizeKinds)
+    (size : Option Nat) (hs : size ≠ some 0) :
+    fromArrowInputKind x kind size = some (expectedRows x.tables size) := by
+  unfold fromArrowInputKind
+  rw [(size_seen_spec kind hk size).1]
+  exact from_arrow_any_input x size hs
+
+/-- **…and `frame.arrow(size)` / the round trip**: limited as `specLimited` says for every kind of integer object. -/
+theorem to_from_roundtrip_any_size_object (names : List String) (rows : List (List α)) (kind : String)
+    (hk : kind ∈ demandedSizeKinds) (size : Option Int)
+    (hw : 0 < names.length) (hrect : ∀ r ∈ rows, r.length = names.length) :
+    roundtripRowsKind names rows kind size = specLimited rows size ∧
+    (toArrowKind names rows kind size).names = names ∧
+    (toArrowKind names rows kind size).numRows = (specLimited rows size).length := by
+  unfold roundtripRowsKind toArrowKind
+  rw [(size_seen_spec kind hk size).2]
+  exact to_from_roundtrip names rows size hw hrect
+
 /-- **Every batch constant, every limit.**  `_RowsIterator` built with *any* positive `batch_size` and
 any `max_size` (none = `float("inf")`) over any tables delivers every row with index below the limit,
 in order, once: the rows do not depend on the batch constant at all (`from_arrow` uses
